@@ -288,8 +288,10 @@ impl DIDUrl {
     let url: RelativeDIDUrl = {
       let mut url: RelativeDIDUrl = RelativeDIDUrl::new();
       url.set_path(Some(did_url.path()))?;
-      url.set_query(did_url.query())?;
-      url.set_fragment(did_url.fragment())?;
+      // The setters drop one leading delimiter, so hand the components over with their delimiter:
+      // a query that itself starts with '?' (or a fragment starting with '#') must not lose a character.
+      url.set_query(did_url.query().map(|query| format!("?{query}")).as_deref())?;
+      url.set_fragment(did_url.fragment().map(|fragment| format!("#{fragment}")).as_deref())?;
       url
     };
 
